@@ -70,8 +70,7 @@ func (p *process) Invoke(msgs []Envelope) {
 		// If we recovered, we buffer up all the messages that we could not process
 		// so we can retry them on the next restart.
 		if v := recover(); v != nil {
-			p.context.message = Stopped{}
-			p.context.receiver.Receive(p.context)
+			p.stopReceiver()
 
 			p.mbuffer = make([]Envelope, nmsg-nproc)
 			for i := 0; i < nmsg-nproc; i++ {
@@ -121,8 +120,7 @@ func (p *process) Start() {
 	p.context.receiver = recv
 	defer func() {
 		if v := recover(); v != nil {
-			p.context.message = Stopped{}
-			p.context.receiver.Receive(p.context)
+			p.stopReceiver()
 			p.tryRestart(v)
 		}
 	}()
@@ -140,6 +138,13 @@ func (p *process) Start() {
 	}
 
 	p.inbox.Start(p)
+}
+
+// stopReceiver tells the current receiver that it is stopped, through the
+// middleware chain like every other message.
+func (p *process) stopReceiver() {
+	p.context.message = Stopped{}
+	applyMiddleware(p.context.receiver.Receive, p.Opts.Middleware...)(p.context)
 }
 
 func (p *process) tryRestart(v any) {
@@ -199,8 +204,7 @@ func (p *process) cleanup(cancel context.CancelFunc) {
 
 	p.inbox.Stop()
 	p.context.engine.Registry.Remove(p.pid)
-	p.context.message = Stopped{}
-	applyMiddleware(p.context.receiver.Receive, p.Opts.Middleware...)(p.context)
+	p.stopReceiver()
 
 	p.context.engine.BroadcastEvent(ActorStoppedEvent{PID: p.pid, Timestamp: time.Now()})
 }
